@@ -14,8 +14,13 @@ from .types import Chunks2d
 
 
 def _find_common_type(array_types, scalar_types):
-    # TODO: don't use find_common_type as it's being removed from numpy
-    return np.find_common_type(array_types, scalar_types)
+    # np.find_common_type was removed in numpy 2:
+    #  promote array types, then widen only when a scalar does not fit
+    dtype = np.result_type(*array_types)
+    for st in scalar_types:
+        if not np.can_cast(st, dtype, "safe"):
+            dtype = np.promote_types(dtype, st)
+    return dtype
 
 
 class BlockAssembler:
